@@ -66,8 +66,9 @@ func limitedReadAll(reader io.Reader) ([]byte, error) {
 func New(timeout time.Duration) *StrictHTTPClient {
 	return &StrictHTTPClient{
 		client: &http.Client{
-			Transport: SafeHttpTransport,
-			Timeout:   timeout,
+			Transport:     SafeHttpTransport,
+			Timeout:       timeout,
+			CheckRedirect: checkRedirect,
 		},
 	}
 }
@@ -77,8 +78,9 @@ func New(timeout time.Duration) *StrictHTTPClient {
 func NewWithCache(timeout time.Duration) *StrictHTTPClient {
 	return &StrictHTTPClient{
 		client: &http.Client{
-			Transport: DefaultCachingTransport,
-			Timeout:   timeout,
+			Transport:     DefaultCachingTransport,
+			Timeout:       timeout,
+			CheckRedirect: checkRedirect,
 		},
 	}
 }
@@ -91,14 +93,39 @@ func NewWithTLSConfig(timeout time.Duration, tlsConfig *tls.Config) *StrictHTTPC
 	transport.TLSClientConfig = tlsConfig
 	return &StrictHTTPClient{
 		client: &http.Client{
-			Transport: transport,
-			Timeout:   timeout,
+			Transport:     transport,
+			Timeout:       timeout,
+			CheckRedirect: checkRedirect,
 		},
 	}
 }
 
 type StrictHTTPClient struct {
 	client *http.Client
+}
+
+// checkRedirect is the redirect policy of the StrictHTTPClient: like the initial request,
+// a redirected request must be over HTTPS when strict mode is enabled.
+func checkRedirect(req *http.Request, via []*http.Request) error {
+	if len(via) >= 10 {
+		return errors.New("stopped after 10 redirects")
+	}
+	if StrictMode && req.URL.Scheme != "https" {
+		return errors.New("strictmode is enabled, but redirect is not over HTTPS")
+	}
+	return nil
+}
+
+// SameOriginRedirects makes the client refuse redirects to another scheme, host or port than that of the initial request.
+// To be used when the host that is allowed to answer the request follows from the request itself (e.g. did:web).
+func (s *StrictHTTPClient) SameOriginRedirects() *StrictHTTPClient {
+	s.client.CheckRedirect = func(req *http.Request, via []*http.Request) error {
+		if req.URL.Scheme != via[0].URL.Scheme || req.URL.Host != via[0].URL.Host {
+			return fmt.Errorf("redirect to another origin is not allowed (%s://%s)", req.URL.Scheme, req.URL.Host)
+		}
+		return checkRedirect(req, via)
+	}
+	return s
 }
 
 func (s *StrictHTTPClient) Do(req *http.Request) (*http.Response, error) {
